@@ -5,7 +5,8 @@
    background_variants selection are exact.  The liftover laws themselves are C05. *)
 From VV Require Import Model.Base Model.Pattern Model.Gpo Model.Background Spec.LiftSpec
   Proofs.ApplyProofs Proofs.GpoTop Proofs.BackgroundProofs
-  Model.Context Proofs.GpoCtxProofs Generated.OrderKey.
+  Model.Context Proofs.GpoCtxProofs Generated.OrderKey Model.Transcript Model.Targeton Model.LiftExons Proofs.LiftExonsProofs
+  Model.LiftTargeton Proofs.LiftTargetonProofs.
 
 Theorem C06_background_seq_is_splice : forall start ref vs,
   wfv start (start + zlen ref - 1) vs ->
@@ -26,6 +27,46 @@ Proof. exact bed_range_one_based. Qed.
 Theorem C06_background_variants_exact : forall r vs v,
   In v (select_overlapping r vs) <-> In v vs /\ (in_range (v_pos v) r = true \/ in_range (var_ref_end v) r = true).
 Proof. exact overlapping_exact. Qed.
+
+(* ---- the transcript and the targeton in background coordinates ---- *)
+
+(* when no exon changes length and the exons keep their order, the lifted transcript is the annotated one moved to background coordinates
+   (numbers and frames kept), provided the annotated frames of the second and later exons follow from the exon lengths; the first exon
+   keeps its annotated frame whatever it is (fix e65eed9) *)
+Theorem C06_lift_exons_faithful : forall s g exons rl,
+  exons <> [] ->
+  mapM (fun e => ref_to_alt_range g (x_range e) true) exons = Ok (map Some rl) ->
+  length exons = length rl ->
+  (forall p, In p (combine exons rl) -> rlen (snd p) = x_len (fst p)) ->
+  ranges_ascending rl ->
+  (let tr := if is_plus s then exons else rev exons in chain_ok 0 (first_frame tr) tr) ->
+  lift_exons s g exons = Ok (map relocate (combine exons rl)).
+Proof. exact lift_exons_faithful. Qed.
+
+(* the tree before that fix reset the frame of the first exon to zero: refuted on exon 10-20 with frame 1 under a substitution at 30 *)
+Theorem C06_lift_exons_frame0_refuted :
+  exists g, from_var_stats [mkVS 30 1 1] (mkRange 5 40) = Ok g /\
+    lift_exons_frame0 Plus g [mkEx 10 20 0 1] = Ok [mkEx 10 20 0 0] /\
+    lift_exons Plus g [mkEx 10 20 0 1] = Ok [mkEx 10 20 0 1].
+Proof. exact lift_exons_frame0_refuted. Qed.
+
+(* the lifted targeton: both ends of the targeton and of region 2 have images, which delimit the lifted ranges; the extension lengths
+   are unchanged and the lifted configuration passed the validation of an input row, so C18's tiling theorems apply to it *)
+Theorem C06_lift_targeton_spec : forall g r vs c c', 0 < rs r -> wf (rs r) (re r) vs -> gpo_for g r vs ->
+  rs r <= rs (t_ref c) -> rs (t_ref c) <= re (t_ref c) -> re (t_ref c) <= re r ->
+  rs r <= rs (t_r2 c) -> rs (t_r2 c) <= re (t_r2 c) -> re (t_r2 c) <= re r ->
+  lift_targeton g c = Ok c' ->
+  r2a vs (rs (t_ref c)) = Some (rs (t_ref c')) /\ r2a vs (re (t_ref c)) = Some (re (t_ref c')) /\
+  r2a vs (rs (t_r2 c)) = Some (rs (t_r2 c')) /\ r2a vs (re (t_r2 c)) = Some (re (t_r2 c')) /\
+  t_e1 c' = t_e1 c /\ t_e3 c' = t_e3 c /\ validate c' = Ok tt.
+Proof. exact lift_targeton_spec. Qed.
+
+Theorem C06_lift_targeton_deleted_end_refused : forall g r vs c, 0 < rs r -> wf (rs r) (re r) vs -> gpo_for g r vs ->
+  rs r <= rs (t_ref c) -> rs (t_ref c) <= re (t_ref c) -> re (t_ref c) <= re r ->
+  rs r <= rs (t_r2 c) -> rs (t_r2 c) <= re (t_r2 c) -> re (t_r2 c) <= re r ->
+  (deleted vs (rs (t_ref c)) = true \/ deleted vs (re (t_ref c)) = true \/ deleted vs (rs (t_r2 c)) = true \/ deleted vs (re (t_r2 c)) = true) ->
+  is_ok (lift_targeton g c) = false.
+Proof. exact lift_targeton_deleted_end_refused. Qed.
 
 Print Assumptions C06_background_seq_is_splice.
 Print Assumptions C06_reported_position_is_ref.
@@ -92,3 +133,7 @@ Print Assumptions C06_context_loop_terminates.
 Print Assumptions C06_single_widening_refuted.
 Print Assumptions C06_context_widening_loops_in_source.
 Print Assumptions C06_context_example.
+Print Assumptions C06_lift_exons_faithful.
+Print Assumptions C06_lift_exons_frame0_refuted.
+Print Assumptions C06_lift_targeton_spec.
+Print Assumptions C06_lift_targeton_deleted_end_refused.
